@@ -11,6 +11,7 @@ import (
 	"math/big"
 	"os/exec"
 	"strings"
+	"syscall"
 	"time"
 )
 
@@ -46,6 +47,9 @@ func NewSolver(tt *TermTable, kind string, logw io.Writer) (*Solver, error) {
 	default:
 		return nil, fmt.Errorf("unknown solver %q", kind)
 	}
+	// the solver must not outlive the engine (a check-sat that ignores its
+	// timeout would otherwise keep a core and gigabytes after a kill)
+	cmd.SysProcAttr = &syscall.SysProcAttr{Pdeathsig: syscall.SIGKILL}
 	stdin, err := cmd.StdinPipe()
 	if err != nil {
 		return nil, err
@@ -214,7 +218,19 @@ func (s *Solver) Check(timeoutMs int) string {
 	s.setTimeout(timeoutMs)
 	s.send("(check-sat)")
 	t0 := time.Now()
+	// watchdog: a solver that overruns its own timeout by a minute is killed;
+	// the query then reads as an error (inconclusive), never as a verdict
+	wdDelay := time.Duration(timeoutMs)*time.Millisecond + 60*time.Second
+	if timeoutMs <= 0 {
+		wdDelay = 6 * time.Hour
+	}
+	wd := time.AfterFunc(wdDelay, func() {
+		if s.cmd.Process != nil {
+			s.cmd.Process.Kill()
+		}
+	})
 	lines := s.sync()
+	wd.Stop()
 	s.Time += time.Since(t0)
 	s.Queries++
 	res := "error"
